@@ -90,11 +90,13 @@ def _graph_worker(cfg):
 def mg_configs(tier):
     out = []
 
-    def add(row, k, L, ps, disps, bds):
+    def add(row, k, L, ps, disps, bds, tmark=False):
         for p in ps:
             for d in disps:
                 out.append(({"row": row, "k": list(k), "L": L, "p": [p] * len(k), "disparity": d,
-                             "mark_truncate": False, "maxmark": None}, bds))
+                             "mark_truncate": tmark, "maxmark": None}, bds))
+    # THB-admissible marking (refine(..., truncate=True)): HB functions interact beyond the disparity of the space
+    add("1D-k2-L3", (2,), 3, (2,), (1,), ("all", "one") if tier == "quick" else ("all", "one", "none"), tmark=True)
     if tier == "quick":
         add("1D-k3-L2", (3,), 2, (1, 2), ("inf", 1), ("all", "one"))
         add("1D-k3-L2", (3,), 2, (2,), (1,), ("none",))
@@ -110,7 +112,7 @@ def mg_configs(tier):
 
 
 def cfg_name(cfg):
-    return "%s:p%s:d%s" % (cfg["row"], "x".join(map(str, cfg["p"])), cfg["disparity"])
+    return "%s:p%s:d%s%s" % (cfg["row"], "x".join(map(str, cfg["p"])), cfg["disparity"], ":tmark" if cfg.get("mark_truncate") else "")
 
 
 # ----------------------------------------------------------------------------------------------------
